@@ -190,9 +190,10 @@ def check_result(it, w, ret, entry_poses, tol, max_iter, label, fixed_now, fails
             fails.add("pose", "%sstep %d is solved while the poses are not S_%d of the reference trajectory" % (label, k, k))
         elif asm_key != want_key:
             fails.add("solve", "%sstep %d solves a linear system that was assembled from other poses than the current ones (stale gradient / Hessian)" % (label, k))
-        if not (isinstance(bcur, Arr) and isinstance(rhs, Arr) and rhs.shape == bcur.shape and all(a == -b for a, b in zip(rhs.flat(), bcur.flat()))):
+        # (when the graph keeps its assembled system under the documented private names, the solve must be handed exactly that)
+        if bcur is not None and not (isinstance(bcur, Arr) and isinstance(rhs, Arr) and rhs.shape == bcur.shape and all(a == -b for a, b in zip(rhs.flat(), bcur.flat()))):
             fails.add("solve", "%sstep %d: the right-hand side of the solve is not -gradient" % (label, k))
-        if not (isinstance(Hcur, Arr) and isinstance(Harg, Arr) and Harg.same(Hcur)):
+        if Hcur is not None and not (isinstance(Hcur, Arr) and isinstance(Harg, Arr) and Harg.same(Hcur)):
             fails.add("solve", "%sstep %d: the matrix of the solve is not the assembled Hessian" % (label, k))
         dx = [Poly.var("dx%d[%d]" % (n_solves_before + k, i)) for i in range(sum(w.dims))]
         nxt = []
